@@ -21,6 +21,7 @@ type RandV struct{}
 
 var prog *ssa.Program
 var allowedInit = map[string]bool{}
+var initDone = map[string]bool{}
 
 func namedType(pkg, name string) types.Type {
 	return prog.ImportedPackage(pkg).Type(name).Type()
@@ -200,8 +201,16 @@ func (e *Engine) stub2(fn *ssa.Function, args []any) (any, bool) {
 	if fn.Name() == "init" && (fn.Pkg == nil || !strings.HasPrefix(fn.Pkg.Pkg.Path(), "github.com/hashicorp/nodeenrollment")) {
 		return nil, true
 	}
-	if fn.Name() == "init" && (fn.Blocks == nil || !allowedInit[fn.Pkg.Pkg.Path()]) {
+	// package initialisers of the library's own packages run (package-level variables such as pools, sentinel errors,
+	// tables); a package's init runs once per path
+	if fn.Name() == "init" && (fn.Blocks == nil || strings.HasSuffix(fn.Pkg.Pkg.Path(), "/zzverif/vf") || strings.HasSuffix(fn.Pkg.Pkg.Path(), "/zzverif/vfs")) {
 		return nil, true
+	}
+	if fn.Name() == "init" {
+		if initDone[fn.Pkg.Pkg.Path()] {
+			return nil, true
+		}
+		initDone[fn.Pkg.Pkg.Path()] = true
 	}
 	if strings.HasPrefix(fn.Name(), "file_") { // protobuf registration
 		return nil, true
